@@ -8,15 +8,29 @@ TRUST = ("trusted base: the home-made verifier govc (Go AST -> SMT translation, 
          "mathematical Go int in index arithmetic, IEEE-754 float64; contracts of callees replace their bodies; "
          "assumed contracts on dependencies are listed in the evidence file")
 
+TECH = "contract-based deductive verification: contracts in /repo/contracts_verif.go, symbolic execution (WP) of the typed Go AST, SMT (z3 4.8/5.1, cvc5)"
 claims = {
+ 'C02': dict(level='proof', design='5.2',
+   text="The rule table is extracted from the AST of doOptimize; for each of the 16 rules a fusion lemma is discharged: the REAL exec case bodies of the window and of the fused instruction, run from one symbolic machine state, end in the same stack, locals, globals, next instruction and error outcome (impure callees: same calls with equal arguments, determinism). Covers all states and operand values. Not covered: that compile() keeps jump spans stable under re-optimisation (compiler side, DESIGN 5.2 span stability).",
+   technique=TECH),
  'C04': dict(level='proof', design='5.4',
-   text="Contracts on the numeric core of value.go (all operator methods, comparisons, assign, convert) state Go's fixed-width semantics row by row "
-        "(operand types x operator) with symbolic operands; every row is discharged by SMT for all operand values. "
-        "Carrier lemmas (int<->float64) are proved each run with real IEEE semantics.",
-   technique="contract-based deductive verification: WP/symbolic execution of the Go AST + SMT (z3, cvc5)"),
+   text="Contracts on the numeric core of value.go (all operator methods, comparisons, assign, convert) state Go's fixed-width semantics row by row (operand types x operator) with symbolic operands; the exec cases of the arithmetic/typing instructions (INCDEC, LOCALINCDEC, NEGATE, BITCOMPLEMENT, CAST, CONVERT, LOCALSET, GLOBALSET) and the variadic packing of call() are proved against them. Carrier lemmas (int<->float64) are proved each run with real IEEE semantics. Compiler-side emission of CAST is not yet under contract.",
+   technique=TECH),
+ 'C07': dict(level='proof', design='5.7',
+   text="VM side: a case contract for every case of (*VM).exec (the ISA table: operand depth needed, exact stack delta, the only cells written, next instruction) is discharged from the real case bodies, together with the exec loop invariant (caller frames untouched, frame object restored) and the call protocol (call, callReady, mkFunc's activation closure). The compiler-side obligations (compile() emits code meeting the ISA preconditions) appear as preconditions of the case contracts and are not yet proved.",
+   technique=TECH),
+ 'C09': dict(level='proof', design='5.9',
+   text="Callee protocol contracts: callReady (arity and result-count errors, trimming), call (variadic packing: length, declared element type, order), the activation closure built by mkFunc (arguments typed in place and in order, zeroed slots, backtrace push/pop, results spliced, frame restored), newFunc, FUNC/CALL/CALLVARIADIC/FASTCALL/FASTCALLATTR cases, joinParams/splitParams round trip. newMethod and the NewFunc adapters are not yet under contract.",
+   technique=TECH),
+ 'C17': dict(level='proof', design='5.17',
+   text="Heap contracts for GLOBALFUNC (in-place copy into the existing funcT, every other function object untouched), GLOBALZERO (writes only when the variable is nil), GLOBALSET, lookup.Write/Assign. addMethod/newMethod (bound methods) not yet under contract.",
+   technique=TECH),
  'C19': dict(level='proof', design='5.19',
-   text="Round-trip contracts on every Value constructor/accessor pair, discharged for all argument values.",
-   technique="contract-based deductive verification: WP/symbolic execution of the Go AST + SMT (z3, cvc5)"),
+   text="Round-trip contracts on every numeric/bool/object Value constructor/accessor pair, discharged for all argument values; newFunc. NewFunc adapters, VM.Func/Call not yet under contract.",
+   technique=TECH),
+ 'C20': dict(level='proof', design='5.20',
+   text="Position lemma per optimizer rule (the fused instruction carries the position of a component that can fault, or one that the rule's own guard / Go's grammar puts on the same line) and the backtrace push/pop discipline of the activation closure. Position stamping in compile() and btErr not yet under contract.",
+   technique=TECH),
 }
 na_reasons = {
  'C01': "whole-language equivalence with the Go toolchain: no contract within reach can state the postcondition (needs a formal Go semantics and a full compiler-correctness proof); the per-function slices of it are C04-C14",
